@@ -119,7 +119,11 @@ def r12_1(run):
     # the quoter is applied to every value and to nothing else
     defs = local_defs(sc)
     vq = [n for n in walk_unit(sc) if isinstance(n, ast.ListComp) and isinstance(n.elt, ast.Call) and dotted(n.elt.func) == q.name]
-    ok = len(vq) == 1 and isinstance(vq[0].generators[0].iter, ast.Name)
+    def _values_iter(it):
+        # the values list by name, or the odd positions of the argument list taken in place (X[1::2])
+        return isinstance(it, ast.Name) or (isinstance(it, ast.Subscript) and isinstance(it.slice, ast.Slice) and const(it.slice.lower) == 1 and it.slice.upper is None
+                                            and const(it.slice.step) == 2)
+    ok = len(vq) == 1 and _values_iter(vq[0].generators[0].iter)
     run.ob('R12.1', sc, sc.node, 'every value goes through the quoter', ok, slot='applied', message='maybe_quote is not applied to the values list')
 
 
@@ -212,6 +216,8 @@ def r12_3(run):
                 it = d[1].generators[0].iter
                 if isinstance(it, ast.Call) and dotted(it.func) == 'range' and len(it.args) == 3:
                     ranges[name] = (const(it.args[0]), const(it.args[2]), src(d[1].elt))
+                if isinstance(it, ast.Subscript) and isinstance(it.slice, ast.Slice) and it.slice.upper is None and const(it.slice.step) == 2:
+                    ranges[name] = (0 if it.slice.lower is None else const(it.slice.lower), 2, src(it.value))
             # the same as an extended slice: X[0::2] / X[::2] and X[1::2]
             if d[0] == 'expr' and isinstance(d[1], ast.Subscript) and isinstance(d[1].slice, ast.Slice) and d[1].slice.upper is None and const(d[1].slice.step) == 2:
                 lo = 0 if d[1].slice.lower is None else const(d[1].slice.lower)
